@@ -43,6 +43,7 @@ func TestC09(t *testing.T) {
 			if err := sim.BridgeScript(h, c.Int("c09.wraps", 0, 4), c.Int("c09.unwraps", 0, 3)); err != nil {
 				c.Note("bridge script stopped: %v", err)
 				c.Class("bridge-script-incomplete")
+				c.Class("bridge-script-incomplete: " + trunc(err.Error(), 60))
 			}
 			if err := sim.LiquidityScript(h); err != nil {
 				c.Note("liquidity script stopped: %v", err)
@@ -158,6 +159,10 @@ func TestC09(t *testing.T) {
 			"produce": h.ActProduce, "produce2": h.ActProduce,
 			// epochs close (reward updates of every contract run), locks and time challenges expire
 			"skipAhead": func() { h.Produce(c.Int("skipAhead", 5, 400)) },
+		}
+		if bridgeWorld {
+			flow := sim.BridgeFlowIntents()
+			acts["bridgeFlow"] = func() { h.ActIntentOf(flow, "bridgeFlow") }
 		}
 		c.Repeat(acts, inv)
 		for i := 0; i < 3 && !h.Dead; i++ {
